@@ -264,25 +264,6 @@ func genActions(r *common.Rand, redirs []string, n int) []string {
 	return as
 }
 
-// sanitize drops value writes whose outcome is a race in the real code and
-// outside this property (a `put` into the form's own input pipe channel).
-func sanitize(ctx, files string, redirs, actions []string) []string {
-	if !strings.Contains(ctx, "i") {
-		return actions
-	}
-	var keep []string
-	for _, a := range actions {
-		if a[0] == 'p' {
-			s := newSpec(ctx, files, "")
-			if s.redirs(redirs) == "ok" && s.putsToInputPipe(a) {
-				continue
-			}
-		}
-		keep = append(keep, a)
-	}
-	return keep
-}
-
 func joinList(xs []string) string {
 	if len(xs) == 0 {
 		return "-"
@@ -293,7 +274,6 @@ func joinList(xs []string) string {
 func gen(c *common.Ctx, emit func(...string)) {
 	r := c.Rand
 	out := func(ctx, files string, redirs, actions []string) {
-		actions = sanitize(ctx, files, redirs, actions)
 		emit("run", ctx, files, joinList(redirs), joinList(actions))
 	}
 	std := "a:~,b:" + common.Hex("BBB\n") + ",c:" + common.Hex("CCCCCCCCC")
@@ -359,7 +339,8 @@ func gen(c *common.Ctx, emit func(...string)) {
 			{"_|r|&" + sTok("-")}, {"_|w|&" + sTok("-")}, {sTok("0") + "|r|&" + sTok("0")}, {sTok("1") + "|w|&" + sTok("1")},
 			{sTok("5") + "|w|f:c"}, {"_|r|&" + sTok("7")}, {"_|w|f:n/x"}, {"_|r|f:b", "_|r|f:c"}, {"_|r|F"},
 		} {
-			out(ctx, std, rs, []string{"r:_", "e:_:" + common.Hex("x"), "p:_:" + common.Hex("v"), "r:3", "e:3:" + common.Hex("y")})
+			// `put >&0` / `put >&3`: value output into the form's own input pipe (or a duplicate of it) must raise
+			out(ctx, std, rs, []string{"r:_", "e:_:" + common.Hex("x"), "p:_:" + common.Hex("v"), "p:0:" + common.Hex("w"), "r:3", "e:3:" + common.Hex("y"), "p:3:" + common.Hex("z")})
 		}
 	}
 	// 4. fd values at and beyond every bound, as destination and as source
